@@ -61,6 +61,14 @@ CALC_BATTERY = [
     ["activation", "Au[197]", 1.0, 1e5, 1.0, [0, 24]],
     ["d2o_match", "C3H4H[1]NO@1.29n"],
     ["fasta_const"],
+    ["refraction", "SiO2", 2.2, 8.04],
+    ["composite", "C3H4NO", "D2O", 4.75],
+    ["composite", "Gd2O3", "H2O", [0.5, 1.0, 4.0]],
+    ["d2o_sld", "C3H4H[1]NO@1.29n"],
+    ["fasta_seq", "aa", "AVGKLR"],
+    ["fasta_seq", "dna", "ACGT"],
+    ["formula_methods", "Ni[58]{2+}SO4", 3.7],
+    ["show_table", "Au2Co", 2.0],
     ["emission_table"],
     ["list", ["symbol", "K_alpha"], "%s %.4f"],
     ["list", ["symbol", "covalent_radius"], "%s %.2f"],
@@ -87,12 +95,19 @@ class Node(object):
         self.objs = {}         # named scratch objects created by events (formulas, ...)
 
     # ---------------------------------------------------------------- helpers
+    def _registry(self):
+        """name -> table as the library registers them (falls back to the tables this node created)."""
+        reg = getattr(self.core, "PRIVATE_TABLES", None)
+        if isinstance(reg, dict):
+            return dict(reg)
+        return dict(self.tables)
+
     def table(self, name):
         if name == "public":
             return self.tables["public"]
         if name in self.tables:
             return self.tables[name]
-        t = self.core.PRIVATE_TABLES.get(name)
+        t = self._registry().get(name)
         if t is None:
             raise LookupError("no table " + name)
         return t
@@ -131,8 +146,8 @@ class Node(object):
                 row.append(_kind(cls.__dict__.get(n, _ABSENT)))
             out[cls.__name__] = "".join(row)
         props = {}
-        for tname, t in sorted(core.PRIVATE_TABLES.items()):
-            props[tname] = sorted(set(t.properties))
+        for tname, t in sorted(self._registry().items()):
+            props[tname] = sorted(set(getattr(t, "properties", ())))
         out["props"] = props
         out["mods"] = sorted(m for m in sys.modules
                              if m.startswith("periodictable.") and sys.modules[m] is not None)
@@ -301,6 +316,40 @@ class Node(object):
             (s,) = a
             f = self._formula(tbl, s)
             return canon([f.mass, f.charge])
+        if which == "refraction":
+            s, density, en = a
+            xsf = self.module("periodictable.xsf")
+            f = self._formula(tbl, s)
+            return canon([xsf.index_of_refraction(f, density=density, energy=en),
+                          xsf.mirror_reflectivity(f, density=density, energy=en, angle=0.2)])
+        if which == "composite":
+            s1, s2, wl = a
+            nsf = self.module("periodictable.nsf")
+            import numpy as np
+            calc = nsf.neutron_composite_sld([self._formula(tbl, s1), self._formula(tbl, s2)], wavelength=wl)
+            return canon(calc(np.array([1.0, 2.0]), density=1.3))
+        if which == "d2o_sld":
+            (s,) = a
+            nsf = self.module("periodictable.nsf")
+            kw = {} if tbl == "public" else {"table": t}
+            return canon(nsf.D2O_sld(self._formula(tbl, s), volume_fraction=0.3, D2O_fraction=0.4, **kw))
+        if which == "fasta_seq":
+            kind, seq = a
+            fasta = self.module("periodictable.fasta")
+            m = fasta.Sequence("verif", seq, type=kind)
+            return canon([m.sld, m.Dsld, m.mass, m.D2Omatch, str(m.formula), m.D2Osld(0.5, 0.5)])
+        if which == "formula_methods":
+            s, density = a
+            f = self._formula(tbl, s, density)
+            return canon([f.neutron_sld(wavelength=4.75), f.xray_sld(energy=8.04), f.natural_mass_ratio(),
+                          f.molecular_mass, sorted(str(k) for k in f.mass_fraction)])
+        if which == "show_table":
+            s, mass = a
+            act = self.module("periodictable.activation")
+            env = act.ActivationEnvironment(fluence=1e8, Cd_ratio=70, fast_ratio=50, location="BT-2")
+            sample = act.Sample(self._formula(tbl, s), mass)
+            sample.calculate_activation(env, exposure=10, rest_times=(0, 1, 24), abundance=act.IAEA1987_isotopic_abundance)
+            return self._printed(sample.show_table, cutoff=0.0)
         raise ValueError(which)
 
     def _printed(self, fn, *a, **kw):
